@@ -26,7 +26,8 @@ CFG = dict(
               "uvSphere_volume", "uvSphere_volume_bounds", "uvSphereUnwelded_volume",
               "hemisphere_volume", "hemisphere_volume_bounds",
               "uvSphere_positions_distinct", "uvSphereUnwelded_merge_exact", "cylinder_merge_exact",
-              "cubeQuads_merge_exact", "cubeWelded_positions_distinct"],
+              "cubeQuads_merge_exact", "cubeWelded_positions_distinct",
+              "hemisphere_positions_distinct", "closed_iff_every_edge_once"],
     streams=[dict(name="c18", n=dict(quick=30, thorough=60),
                   ulps={"c18.pos.sphere": _SIN, "c18.pos.sphereu": _SIN, "c18.pos.hemi": _SIN, "c18.nrm.sphere": _SINN,
                         "c18.pos.cyl": _ROT, "c18.nrm.cyl": _ROTN, "c18.pos.cubeq": _ROT, "c18.nrm.cubeq": _ROTN})],
@@ -40,7 +41,7 @@ CFG = dict(
         "the theorems are about the model (Model/Solids.lean); that the Go constructors emit exactly the model's index lists, vertex counts and panics is corresponded exactly for every (rows, cols), sides <= 24 (thorough; <= 10 quick) and sampled up to 512, not proved",
         "positions/normals: the implementation's float64 values agree with the model at Float up to the stated tolerances (observed on every run, not proved); the geometric theorems (outward, normals, volume) are over the reals about the model's expressions (IEEE rounding not modelled) and are re-checked numerically on the implementation's own output",
         "merge maps: that they identify exactly the vertices whose REAL model positions coincide is a theorem (uvSphereUnwelded_merge_exact, cylinder_merge_exact, cubeQuads_merge_exact, *_positions_distinct); that the implementation's float positions realise the same classes (merged within 1e-9*size, unmerged not) is checked on every run (c18.merge.*, <= 3000 vertices), and closedness is additionally evaluated with the merge map computed from the implementation's positions alone (c18.holds.closed_by_position)",
-        "outward = positive signed volume of every face against an interior point (star-shapedness); embeddedness is not stated separately",
+        "outward = positive signed volume of every face against an interior point (star-shapedness); embeddedness, connectedness and vertex-manifoldness (one umbrella per vertex) are not stated separately; Closed is edge-manifoldness with consistent orientation",
         "hemisphere normals are not covered (the property lists sphere, box, cylinder; Hemisphere.UV's vertex-0 normal is NaN); the unwelded sphere supplies no normals",
         "cylinder with fewer than 3 sides and a cap panics in Circle.ToMesh (fix fc0d720): corresponded via Solids.cylinderAdmissible; degenerate pipes (no caps) are corresponded (indices, vertex count) but are not solids and carry no oracle",
     ],
